@@ -139,7 +139,24 @@ func Inlinable(root *ssa.Function) func(call ssa.CallInstruction, callee *ssa.Fu
 		if _, isGo := call.(*ssa.Go); isGo {
 			return false
 		}
-		return callee != nil && callee.Blocks != nil && core.RelPkg(callee) == rel
+		if callee == nil || callee.Blocks == nil {
+			return false
+		}
+		if core.RelPkg(callee) == rel {
+			return true
+		}
+		// a helper of another package of the module that is handed a function literal of this one (a higher-order
+		// helper such as `guard(t, func(){ … })`): the literal runs inside it
+		if core.InModule(callee) {
+			for _, a := range call.Common().Args {
+				if mc, ok := Strip(a).(*ssa.MakeClosure); ok {
+					if f, isF := mc.Fn.(*ssa.Function); isF && f.Synthetic == "" && core.RelPkg(f) == rel {
+						return true
+					}
+				}
+			}
+		}
+		return false
 	}
 }
 
